@@ -70,13 +70,13 @@ theorem step_record (s : SeqState) (op : Op) (hok : (stepRaw s op).err = none) (
     all_goals rfl
   | target qs n =>
     right
-    have hok' : (store (.target qs n) (targetCore s qs n)).err = none := hok
-    have h := store_record (.target qs n) (kc_targetCore s qs n) hok'
+    have hok' : (store (.target qs n) ((targetCore s qs n).orRollback s)).err = none := hok
+    have h := store_record (.target qs n) (kc_orRollback (kc_targetCore s qs n)) hok'
     exact ⟨_, h.1, h.2.1, h.2.2, rfl⟩
   | delay d n atRest =>
     right
-    have hok' : (store (.delay d n atRest) (delayChecked s d n atRest)).err = none := hok
-    have h := store_record (.delay d n atRest) (kc_delayChecked s d n atRest) hok'
+    have hok' : (store (.delay d n atRest) ((delayChecked s d n atRest).orRollback s)).err = none := hok
+    have h := store_record (.delay d n atRest) (kc_orRollback (kc_delayChecked s d n atRest)) hok'
     exact ⟨_, h.1, h.2.1, h.2.2, rfl⟩
   | phaseShift phi qs b =>
     right
@@ -153,6 +153,7 @@ theorem step_record (s : SeqState) (op : Op) (hok : (stepRaw s op).err = none) (
     have hok' := hok
     simp only [stepRaw] at hok'
     obtain ⟨h1, h2, h3⟩ := store_record (.align chs atRest) (by
+      apply kc_orRollback
       repeat' split
       all_goals first | exact Meta.rfl' s | exact kc_alignLoop _ _ _) hok'
     refine ⟨?_, ?_, ?_, rfl⟩
@@ -183,9 +184,10 @@ theorem step_record (s : SeqState) (op : Op) (hok : (stepRaw s op).err = none) (
                               | none => 0))
                         l.targets c.cfg.basis
                     | none => fail s1 Err.noTarget
-                else done s1)) → KeepsCalls s r := by
+                else done s1)) → KeepsCalls s (r.orRollback s) := by
       intro r hr
       subst hr
+      apply kc_orRollback
       split
       · exact Meta.rfl' s
       · split
@@ -273,12 +275,16 @@ theorem step_record (s : SeqState) (op : Op) (hok : (stepRaw s op).err = none) (
             | ok detOff =>
               simp only [hp] at hok'
               have hp' := processEomParams_stored hp hn
+              -- the call succeeded: nothing was rolled back
+              have hro := Raw.orRollback_ok hok'
+              rw [hro] at hok'
               have hE : stepRaw s (.enableEom n e) = enableEomCommit s n c e detOff := by
                 simp only [stepRaw, if_neg g0, hc, if_neg g1, if_neg g2, hp]
+                exact hro
               have hE' : stepRaw s (.enableEom n { e with optimal := detOff }) =
                   enableEomCommit s n c e detOff := by
                 simp only [stepRaw, if_neg g0, hc, if_neg g1, if_neg g2, hp']
-                rfl
+                exact hro
               refine ⟨.enableEom n { e with optimal := detOff }, ?_, ?_, ?_, by rw [hE, hE']⟩
               all_goals
                 rw [hE]
@@ -317,12 +323,15 @@ theorem step_record (s : SeqState) (op : Op) (hok : (stepRaw s op).err = none) (
           | ok detOff =>
             simp only [hp] at hok'
             have hp' := processEomParams_stored hp hn
+            have hro := Raw.orRollback_ok hok'
+            rw [hro] at hok'
             have hE : stepRaw s (.modifyEom n e) = modifyEomCommit s n c e detOff := by
               simp only [stepRaw, if_neg g0, hc, if_neg g1, hp]
+              exact hro
             have hE' : stepRaw s (.modifyEom n { e with optimal := detOff }) =
                 modifyEomCommit s n c e detOff := by
               simp only [stepRaw, if_neg g0, hc, if_neg g1, hp']
-              rfl
+              exact hro
             refine ⟨.modifyEom n { e with optimal := detOff }, ?_, ?_, ?_, by rw [hE, hE']⟩
             all_goals
               rw [hE]
